@@ -26,7 +26,11 @@ Inductive ccase :=
       (olon olat : Q) (oz om : option Q)
 (* a == b, hash(a) == hash(b) for a = Coordinate(lon1,lat1,z1,m1), b likewise *)
 | KEq (lon1 lat1 : Q) (z1 m1 : option Q) (lon2 lat2 : Q) (z2 m2 : option Q)
-      (o_eq o_hasheq : bool).
+      (o_eq o_hasheq : bool)
+(* the same observations, with the two coordinates given by the values the implementation
+   STORED (exact rationals of the stored floats): a == b, b == a, hash(a) == hash(b), len({a, b}) *)
+| KEqStored (lon1 lat1 : Q) (z1 m1 : option Q) (lon2 lat2 : Q) (z2 m2 : option Q)
+      (o_eq o_eq_sym o_hasheq : bool) (o_setlen : Z).
 
 Definition check (c : ccase) : bool :=
   match c with
@@ -52,4 +56,9 @@ Definition check (c : ccase) : bool :=
           eqb (ceqb a b) o_eq && implb (hkey_eqb a b) o_hasheq && implb o_eq o_hasheq
       | _, _ => false
       end
+  | KEqStored lon1 lat1 z1 m1 lon2 lat2 z2 m2 o_eq o_eq_sym o_hasheq o_setlen =>
+      let a := mkc lon1 lat1 z1 m1 in
+      let b := mkc lon2 lat2 z2 m2 in
+      eqb (ceqb a b) o_eq && eqb (ceqb b a) o_eq_sym && implb (hkey_eqb a b) o_hasheq &&
+      (o_setlen =? (if ceqb a b then 1 else 2))%Z
   end.
